@@ -1,6 +1,6 @@
 (* PipelineProofs.v — theorems about kiki::generate as a whole. *)
 From Coq Require Import List Arith Lia Bool Permutation.
-From Kiki Require Import Base.Ord Base.Chars Data Oset.Model Lex.Model LR.Driver LR.Grammar LR.Inv LR.Complete LR.Sound LR.ErrPos LR.Viable LR.Least LR.CanonLR1
+From Kiki Require Import Base.Ord Base.Chars Data Oset.Model Lex.Model LR.Driver LR.Grammar LR.Inv LR.Complete LR.Sound LR.ErrPos LR.Viable LR.Least LR.CanonLR1 LR.FirstExact
   LR.Validate LR.ValidateProofs Front.Parse Front.FrontProofs Ast.Validate Ast.WF Ast.ValidateProofs Ast.VWF Ast.Truthful
   Build.Machine Build.DetProofs Build.Table Build.TableProofs Build.FillProofs Build.TableSpec Build.GenCorrect Np Build.NoPanic
   Emit.Emit Emit.Hash Emit.HashProofs Emit.Parser Emit.NoPanic Pipeline.
@@ -51,7 +51,7 @@ Theorem generate_tables_invariants ho digest src out text :
   exists pt (ann : list (list Grammar.item)) (ft : first_table),
     ptable_of (go_file out) (go_table out) = Some pt /\
     Inv pt ann (fseq ft) /\ Inv2 pt ann /\ (forall P (kind : P -> nat), FirstOK kind pt (fseq ft)) /\ Inv3 pt ann /\
-    Least pt ann (fseq ft).
+    Least pt ann (fseq ft) /\ (first_closed ft (pt_rules pt) = true /\ FirstLeast pt ft).
 Proof.
   intros (Hpt & Hpa) H. unfold generate_full in H.
   destruct (front_end src) as [v|e|s|s] eqn:Ev; cbn [bind] in H; try discriminate.
@@ -62,7 +62,7 @@ Proof.
   destruct (table_to_rust _ _ _ t v digest) as [tx|e|s|s]; cbn [bind] in H; try discriminate.
   injection H as <- <-. cbn [go_file go_table].
   destruct (ptable_of_total v t HV) as (pt & HP). exists pt.
-  destruct (generated_tables_invariants _ _ _ v m t pt HV Hpt Hpa Em Et HP) as (ann & ft & A & B & C & D & E).
+  destruct (generated_tables_invariants _ _ _ v m t pt HV Hpt Hpa Em Et HP) as (ann & ft & A & B & C & D & E & F).
   exists ann, ft. repeat (split; [assumption|]). assumption.
 Qed.
 
@@ -75,7 +75,7 @@ Section Emitted.
 
   Lemma emitted_invariants : exists ann ft, Inv pt ann (fseq ft) /\ Inv2 pt ann /\ FirstOK kind pt (fseq ft) /\ Inv3 pt ann.
   Proof.
-    destruct (generate_tables_invariants ho digest src out text Hho Hgen) as (pt' & ann & ft & HP & A & B & C & D & _).
+    destruct (generate_tables_invariants ho digest src out text Hho Hgen) as (pt' & ann & ft & HP & A & B & C & D & _ & _).
     rewrite Hpt in HP. injection HP as <-. exists ann, ft. auto.
   Qed.
 
@@ -142,7 +142,7 @@ Theorem emitted_annotation_is_exact ho digest src out text :
     ptable_of (go_file out) (go_table out) = Some pt /\
     forall s it, In_state ann it s <-> lder pt (fseq ft) s it.
 Proof.
-  intros Hho H. destruct (generate_tables_invariants ho digest src out text Hho H) as (pt & ann & ft & HP & A & _ & _ & _ & E).
+  intros Hho H. destruct (generate_tables_invariants ho digest src out text Hho H) as (pt & ann & ft & HP & A & _ & _ & _ & E & _).
   exists pt, ann, ft. split; [exact HP|]. apply exact_of_closed_and_least; assumption.
 Qed.
 
@@ -163,12 +163,15 @@ Theorem emitted_states_are_merged_canonical_LR1 ho digest src out text :
     ptable_of (go_file out) (go_table out) = Some pt /\
     (forall s it, In_state ann it s <-> exists g, path pt g s /\ valid1 pt (fseq ft) g it) /\
     (forall g s, path pt g s -> forall it, In_state ann it s ->
-                 exists it', valid1 pt (fseq ft) g it' /\ same_core_item it it').
+                 exists it', valid1 pt (fseq ft) g it' /\ same_core_item it it') /\
+    (* and FIRST(beta a) in the closure rule is computed from exactly FIRST / nullable of the grammar *)
+    (forall n t, In t (first_of ft n) <-> pfirst pt n t) /\ (forall n, nullable_of ft n = true <-> pnull pt n).
 Proof.
-  intros Hho H. destruct (generate_tables_invariants ho digest src out text Hho H) as (pt & ann & ft & HP & A & B & _ & _ & E).
-  exists pt, ann, ft. split; [exact HP|]. split.
+  intros Hho H. destruct (generate_tables_invariants ho digest src out text Hho H) as (pt & ann & ft & HP & A & B & _ & _ & E & Fc & Fl).
+  exists pt, ann, ft. split; [exact HP|]. split; [|split].
   - intros s it. apply merged_lookaheads; assumption.
   - intros g s Hp it Hin. apply (same_core pt ann (fseq ft) A E B (fseq_any_ft ft) g s Hp it Hin).
+  - apply first_table_exact; assumption.
 Qed.
 
 (* ---------- C07: after the front end, nothing can panic ---------- *)
